@@ -13,6 +13,10 @@ CLAIMED = {
    text="Coq theorems for every operation and every operation sequence (panicking calls included): invariant (reported length = contents, no empty chunk), refinement of each operation to the plain byte vector, exact characterisation of which calls panic and that they leave the value unchanged, Buf contract, variant indistinguishability of the single-value mutators; about a Gallina transcription of pbuf.rs/lib.rs; tied to the code by differential runs (bounded-exhaustive + random op sequences, release and debug).",
    note="Trusts: Coq kernel; sampled correspondence (evidence); extraction + driver; chunk variants are not part of the model (the harness mixes them so a dependence shows as a disagreement).",
    technique="Coq proof (invariant by induction over operations + refinement to list) + correspondence check", engine="pure-harness"),
+ "C18": dict(
+   text="Coq theorems for all well-formed SOCKS5, SOCKS4 and SOCKS4a requests (every address type, field length and value): the readers return exactly the RFC's fields and consume exactly the request's bytes; every strict prefix makes them wait/EOF, never succeed; unknown version / address type are refused; replies and the UDP relay header are byte-exact, a conforming client parses the relay datagram back, the relay's parser is total. About a Gallina transcription of v4.rs/v5.rs; tied to the code by differential runs over an in-memory duplex (closed and open input, 3-byte reads).",
+   note="Trusts: Coq kernel; sampled correspondence; extraction + driver; RFC 1928 / SOCKS4a field tables transcribed in Socks/Spec.v; std::net text parsing used to canonicalise IPv6 host strings.",
+   technique="Coq proof (parser exactness, prefix starvation, byte-exact writers, round trip) + correspondence check", engine="pure-harness"),
 }
 ENGINES = [
  {"name": "coq", "path": "coq/", "kind_free_text": "Coq 8.16 development: executable Gallina models, specifications, proofs, property theorem files, extraction (ExtrOcamlBasic) to ocaml/driver"},
